@@ -145,6 +145,7 @@ def stepLine (s : St) (ln : Nat) (line : String) : St := Id.run do
   let toks := (line.splitOn " ").filter (· != "")
   match toks with
   | [] => return s
+  | "family" :: f :: _ => return { s with family := f }
   | "family" :: _ => return s
   | "seed" :: _ => return s
   | "tier" :: _ => return s
